@@ -20,6 +20,9 @@ C04Lits ==
     <<"neg", A("s", <<X>>)>>, <<"neg", A("s", <<Y>>)>>, <<"neg", A("s", <<W>>)>>, <<"neg", A("t", <<X, Y>>)>>,
     <<"neg", A("t", <<X, W>>)>>,
     <<"ne", X, Y>>, <<"lt", X, Y>>, <<"eq", X, Y>>, <<"eq", X, N(1)>>, <<"eq", Y, Ap("fn:plus", <<X, N(1)>>)>>,
+    \* a constant opposite a function application (either side), application = application, comparison with an application
+    <<"eq", N(3), Ap("fn:plus", <<X, N(1)>>)>>, <<"eq", Ap("fn:plus", <<Y, N(1)>>), N(3)>>,
+    <<"eq", Ap("fn:plus", <<X, N(1)>>), Ap("fn:plus", <<Y, N(0)>>)>>, <<"lt", Ap("fn:plus", <<X, N(1)>>), Y>>,
     <<"bi", ":match_pair", <<P, X, Y>>>>, <<"bi", ":list:member", <<X, L>>>> }
 C04Transforms ==
   { <<"none">>,
